@@ -480,7 +480,6 @@ def du5_selection_table(ctx):
     import itertools
     from ..absint import Machine, Unknown, is_sym, is_ptr
     from .. import absstr
-    from ..data import decode_fmt_template
     b = ctx.facts.one(r'^compiler::duration::DurationItem::duration_formatter$')
     ctx.fn(b)
     tys = [str(b.locals.get(i, '')) for i in range(1, b.argc + 1)]
@@ -545,39 +544,6 @@ def du5_selection_table(ctx):
                 src, pat, w = (m.deref_value(a) for a in args)
                 if absstr.is_str(src) and absstr.is_str(pat) and absstr.is_str(w):
                     return ('str', ['R<%s|%s|%s>' % ('+'.join(map(str, src[1])), '+'.join(map(str, pat[1])), '+'.join(map(str, w[1])))])
-            if re.search(r'fmt::rt::Argument::<.*>::new_display$', path) and args:
-                return ('fmtarg', a0)
-            if re.search(r'fmt::Arguments::<.*>::new(_v1|_const)?$', path) and args:
-                tpl = a0
-                if not (is_sym(tpl) and tpl[1].startswith('const:')):
-                    raise Unknown('format template %r' % (tpl,))
-                try:
-                    pieces = decode_fmt_template(tpl[1][6:])
-                except AnchorLost as ex:
-                    raise Unknown(str(ex))
-                vals = m.deref_value(args[1]) if len(args) > 1 else ('tuple', [])
-                vals = list(vals[1]) if isinstance(vals, tuple) and vals and vals[0] == 'tuple' else []
-                out = []
-                it = iter(vals)
-                for pc in pieces:
-                    if pc is None:
-                        v = next(it, None)
-                        v = m.deref_value(v[1]) if isinstance(v, tuple) and v and v[0] == 'fmtarg' else None
-                        if isinstance(v, int):
-                            out.append('n')
-                        elif absstr.is_str(v):
-                            out += list(v[1])
-                        else:
-                            raise Unknown('format argument %r' % (v,))
-                    elif pc:
-                        out += list(pc)
-                return ('fmt', out)
-            if re.search(r'fmt::Write::write_fmt$|fmt::Write>::write_fmt$', path) and len(args) == 2:
-                f = m.deref_value(args[1])
-                cur = m.deref_value(args[0])
-                if isinstance(f, tuple) and f and f[0] == 'fmt' and absstr.is_str(cur) and is_ptr(args[0]):
-                    absstr.write_back(m, args[0], ('str', list(cur[1]) + list(f[1])))
-                    return m.make_adt('core::result::Result::Ok', [('tuple', [])], [])
             r = absstr.std_model(m, path, args, t)
             if r is not NotImplemented:
                 return r
